@@ -183,3 +183,42 @@ def gen_context_cfg(rng):
     rules = sorted(set(rules), key=lambda r: (r[0] != 'start', r))
     used_ts = [t for t in ts if any(t in rhs for _, rhs in rules)]
     return rules, used_ts
+
+
+def gen_nullable_prefix_cfg(rng):
+    """Rules of the shape  x: n1 .. nk y rest  where the n's are nullable and y is not, with terminals that only y (or
+    only one of the n's) can start: after an input that stops right before x - in particular the empty input when x is
+    reached from the start symbol - the terminals that can come next are reached only by advancing freshly predicted
+    items over empty derivations and predicting y from there."""
+    ts = ['A', 'B', 'C', 'D', 'E']
+    k = rng.randint(1, 2)
+    ns = ['n%d' % i for i in range(1, k + 1)]
+    rules = []
+    lead = tuple(rng.choice(ts[:2]) for _ in range(rng.randint(0, 2)))
+    tail = (rng.choice(ts),) if rng.random() < 0.5 else ()
+    rules.append(('start', lead + ('x',)))
+    if rng.random() < 0.3:
+        rules.append(('start', lead + (rng.choice(ts[:2]),)))
+    rules.append(('x', tuple(ns) + ('y',) + tail))
+    for i, n in enumerate(ns):
+        t = ts[2 + i] if rng.random() < 0.7 else rng.choice(ts)
+        rules.append((n, ()))
+        shape = rng.choice(['one', 'rec', 'unit'])
+        if shape == 'one':
+            rules.append((n, (t,)))
+        elif shape == 'rec':
+            rules.append((n, (t, n)))
+        else:
+            rules.append((n, ('m%d' % i,)))
+            rules.append(('m%d' % i, ()))
+            rules.append(('m%d' % i, (t,)))
+    ty = ts[4] if rng.random() < 0.7 else rng.choice(ts)
+    rules.append(('y', (ty,)))
+    if rng.random() < 0.5:
+        rules.append(('y', (rng.choice(ts[3:]), 'y')))
+    if rng.random() < 0.3:
+        rules.append(('y', ('z1',)))
+        rules.append(('z1', (rng.choice(ts), rng.choice(ts))))
+    rules = sorted(set(rules), key=lambda r: (r[0] != 'start', r))
+    used_ts = [t for t in ts if any(t in rhs for _, rhs in rules)]
+    return rules, used_ts
